@@ -73,11 +73,11 @@ Proof.
   intros st st' I2 [[D' _] _] U T C M. destruct (M T U) as (T' & _ & M'). split; auto. eapply cinv_mach; eauto.
 Qed.
 
-Lemma mode_ok_cases : forall L mode, mode_ok L mode = true -> mode = 1 \/ mode = 2 \/ mode = 4 \/ mode = 5.
+Lemma mode_ok_cases : forall L mode, mode_ok L mode = true -> 1 <= mode <= 5.
 Proof.
   intros L mode H. unfold mode_ok in H. destruct (L <=? 1).
-  - apply orb_true_iff in H as [H|H]; apply Z.eqb_eq in H; auto.
-  - repeat (apply orb_true_iff in H as [H|H]); apply Z.eqb_eq in H; auto.
+  - apply orb_true_iff in H as [H|H]; apply Z.eqb_eq in H; lia.
+  - apply andb_true_iff in H as [H1 H2]. apply Z.leb_le in H1, H2. lia.
 Qed.
 
 Lemma ops_uniq_same : forall st st', s_ops st' = s_ops st -> ops_uniq st -> ops_uniq st'.
@@ -103,7 +103,7 @@ Proof.
   { cbn [fst] in *. apply (cinv_machU st); auto.
     apply (machU_trans _ (resume st e false hint)); [apply machU_resume; intro Y; discriminate Y | apply machU_flush]. }
   destruct (mode =? 6) eqn:M6.
-  { exfalso. apply Z.eqb_eq in M6. destruct (mode_ok_cases _ _ OKM) as [M|[M|[M|M]]]; lia. }
+  { exfalso. apply Z.eqb_eq in M6. pose proof (mode_ok_cases _ _ OKM). lia. }
   destruct (k_kind rp =? K_FixVersion) eqn:KF.
   { cbn [fst] in *. apply Z.eqb_eq in KF.
     set (e2 := set_pent e 1 [] [] (mode =? 2) (negb (mode =? 5))) in *.
@@ -123,10 +123,27 @@ Proof.
     - intros _ x Ix Id. cbn in Ix, Id. unfold pool_update in Ix. apply in_map_iff in Ix as (y & Ey & Iy).
       destruct (p_id y =? p_id e2) eqn:Q; subst x; [cbn; rewrite ERP; exact KF|]. apply Z.eqb_neq in Q. cbn in Q. contradiction. }
   destruct (exec_rpc st e place) as [[st1 res] tr] eqn:X1.
-  destruct (mode =? 3) eqn:M3.
-  { exfalso. apply Z.eqb_eq in M3. destruct (mode_ok_cases _ _ OKM) as [M|[M|[M|M]]]; lia. }
-  cbn [fst] in *.
   specialize (SD0 eq_refl). rename SD0 into SD.
+  destruct (mode =? 3) eqn:M3.
+  { (* executed twice: the reply of the first execution is the one that travels *)
+    destruct (exec_rpc st1 e place) as [[st1b res2] tr2] eqn:X2. cbn [fst] in *.
+    destruct (cinv_exec_upd2 st e place st1 res tr st1b res2 tr2 (3 =? 2) (negb (3 =? 5)) I2 OO T C F EST SD X1 X2) as [C2 T2].
+    apply Z.eqb_eq in M3. subst mode.
+    pose proof I2 as [I W].
+    destruct (inv_exec _ _ _ _ _ _ I X1) as (E1 & P1 & TB1).
+    assert (J1 : Inv2 st1) by (split; [exact (evolves_inv _ _ E1 I) | exact (win_exec _ _ _ _ _ _ I2 F X1)]).
+    assert (F1 : In e (s_pool st1)) by (rewrite P1; exact F).
+    destruct (inv_exec _ _ _ _ _ _ (proj1 J1) X2) as (E2 & P2 & TB2).
+    assert (J1b : Inv2 st1b) by (split; [exact (evolves_inv _ _ E2 (proj1 J1)) | exact (win_exec _ _ _ _ _ _ J1 F1 X2)]).
+    set (st2 := set_pool st1b (pool_update (s_pool st1b) (set_pent e 2 res tr (3 =? 2) (negb (3 =? 5))))) in *.
+    assert (J2 : Inv2 st2).
+    { split; [apply inv_pool_update; [exact (proj1 J1b) | rewrite P2; exact F1 |] | apply win_pool_update; [exact (proj2 J1b) | rewrite P2; exact F1]].
+      intros x Hx. destruct J1 as [[D1 _] _]. eapply bound_advances; [apply evolves_advances; exact E2 | exact D1 | apply (TB1 _ Hx)]. }
+    assert (U2 : ops_uniq st2).
+    { destruct (exec_misc _ _ _ _ _ _ X1) as (_ & O1 & _). destruct (exec_misc _ _ _ _ _ _ X2) as (_ & O2 & _).
+      apply (ops_uniq_same st); auto. cbn. congruence. }
+    apply (cinv_machU st2); auto. apply machU_flush. }
+  cbn [fst] in *.
   destruct (cinv_exec_upd st e place st1 res tr (mode =? 2) (negb (mode =? 5)) I2 OO T C F EST SD X1) as [C2 T2].
   pose proof I2 as [I W].
   destruct (inv_exec _ _ _ _ _ _ I X1) as (E1 & P1 & TB1).
